@@ -23,6 +23,57 @@ def classify(path, old, new):
     return None, '/'.join(s for s in segs[-2:])
 
 
+def mentions(t, name, depth=0):
+    """does the type (live object, attribute reads only) mention type variable `name`?"""
+    from src.ir import types as tp
+    if t is None or depth > 12:
+        return False
+    if isinstance(t, tp.TypeParameter):
+        return t.name == name or mentions(t.bound, name, depth + 1)
+    if isinstance(t, tp.WildCardType):
+        return mentions(t.bound, name, depth + 1)
+    if isinstance(t, tp.ParameterizedType):
+        return any(mentions(a, name, depth + 1) for a in t.type_args)
+    return False
+
+
+def uninferable_type_args(program):
+    """inference-mode obligation that is certain in Kotlin and Scala: the type arguments of
+    `new C<..>(..)` may be omitted only if every type parameter of C either occurs in the
+    type of a constructor parameter or can come from an expected type.  A constructor call
+    used as the RECEIVER of a member access, or initialising a variable whose own type is
+    omitted, has no expected type.  Returns [(where, class, type parameter)]."""
+    from src.ir import ast, types as tp
+    from sim import walk
+    decls = {d.name: d for d in program.context._context.get(('global',), {}).get(
+        'decls', {}).values() if isinstance(d, ast.ClassDeclaration)}
+    out = []
+
+    def check(new, where):
+        t = new.class_type
+        if not isinstance(t, tp.ParameterizedType) or not t.__dict__.get('_can_infer_type_args'):
+            return
+        d = decls.get(t.name)
+        if d is None or len(d.fields) != len(new.args):
+            return
+        names = [q.name for q in d.type_parameters]
+        for p in d.type_parameters:
+            if not any(mentions(f.field_type, p.name) for f in d.fields):
+                dep = p.bound is not None and any(
+                    mentions(p.bound, n) for n in names if n != p.name)
+                out.append((where + ('|bounded-by-another-parameter' if dep
+                                     else '|unconstrained'), d.name, p.name))
+    for node, path, parents in walk.iter_nodes(program):
+        if isinstance(node, ast.FunctionCall) and isinstance(node.receiver, ast.New):
+            check(node.receiver, 'receiver-of-call')
+        elif isinstance(node, ast.FieldAccess) and isinstance(node.expr, ast.New):
+            check(node.expr, 'receiver-of-field-access')
+        elif isinstance(node, ast.VariableDeclaration) and node.var_type is None and \
+                isinstance(node.expr, ast.New):
+            check(node.expr, 'initialiser-of-untyped-variable')
+    return out
+
+
 class ErasureObserver(pipeline.Observer):
     def __init__(self, check, sim):
         self.check = check
@@ -40,6 +91,7 @@ class ErasureObserver(pipeline.Observer):
         after = snap.asnap(program)
         d = snap.adiff(self._before, after, limit=400)
         self.rounds.append({'index': index, 'diff': d,
+                            'uninferable': uninferable_type_args(program),
                             'is_transformed': bool(transformer.is_transformed),
                             'timer_fired': self.sim.fault_fired['P4'] + self.sim.fault_fired[
                                 'timer_deadline'],
@@ -118,6 +170,16 @@ class C03(PipelineCheck):
                                                                  'some' if real else 'none'),
                     'round %d: is_transformed=%s but %d annotations were removed' % (
                         rd['index'] + 1, rd['is_transformed'], real))
+            obl['inference-certain'] = obl.get('inference-certain', 0) + 1
+            if lang == 'kotlin':
+                for where, cls, tpn in rd['uninferable'][:6]:
+                    add('uninferable-type-argument', where,
+                        'round %d: the type arguments of `new %s<..>(..)` are omitted although '
+                        'type parameter %s occurs in no constructor parameter type and the call '
+                        'is the %s (no expected type): no compiler can infer it' % (
+                            rd['index'] + 1, cls, tpn, where.split('|')[0].replace('-', ' ')))
+            if rd['uninferable']:
+                probes['uninferable_seen_any_language'] = 1
             if real:
                 feats.append('%s-%d' % (sim.rand.digest(), rd['index']))
             else:
